@@ -1,5 +1,6 @@
 import BppProofs.Lemmas.Rand
 import BppProofs.Lemmas.RandRcont
+import BppProofs.Lemmas.RandLaw
 /-!
 # C18 — random draws   (RandomTools, ContingencyTableGenerator, ContingencyTableTest, discrete rand)
 
@@ -161,5 +162,191 @@ example : rcont2 [5, 1] [3, 3] [[2]] = .ok [[2, 3], [1, 0]] := by decide
 example : rcont2 [5, 1] [3, 3] [[4]] = .error .unreachable := by decide
 example : rcont2 [4, 6, 5] [7, 8] [[2], [3]] = .ok [[2, 2], [3, 3], [2, 3]] := by decide
 example : rcont2 [0, 0] [0, 0] [] = .ok [[0, 0], [0, 0]] := by decide
+
+/-! ## weighted picks follow the weights (given a uniform draw) — over the reals -/
+
+/-- the weighted `pickOne` overloads return the element at the position `weightedIndex` chooses,
+for every draw `u` (any scalar type, even NaN), provided there is one weight per element -/
+theorem weighted_pick_is_indexed {α : Type} [Scalar α] {τ : Type} (v : List τ) (w : List α) (replace : Bool) (u : α)
+    (hv : v ≠ []) (hw : w.length = v.length) :
+    ∃ pos e, pos < v.length ∧ v[pos]? = some e ∧ weightedIndex v.length w u = .ok pos ∧
+      pickOneW v w replace u = .ok (e, if replace then v else swapPop v pos, if replace then w else swapPop w pos) ∧
+      (replace = false → v.Perm (e :: swapPop v pos)) := by
+  obtain ⟨pos, e, h1, h2, h3, h4⟩ := pickOneW_ok hv hw replace u
+  exact ⟨pos, e, h1, h2, h3, h4, fun _ => swapPop_perm h2⟩
+
+/-- `weighted_pick_law`: for non-negative weights `w = pre ++ x :: post` with positive sum `S` and a
+uniform draw `u ∈ [0,1)`, the position of `x` is picked exactly when
+`Σpre / S ≤ u < (Σpre + x) / S`: the set `{u | pick u = i}` is an interval of length `wᵢ / Σw` -/
+theorem weighted_pick_law (pre : List ℝ) (x : ℝ) (post : List ℝ) (u : ℝ)
+    (hw : ∀ y ∈ pre ++ x :: post, 0 ≤ y) (hS : 0 < (pre ++ x :: post).sum) (hu0 : 0 ≤ u) (hu1 : u < 1) :
+    weightedIndex (pre ++ x :: post).length (pre ++ x :: post) u = .ok pre.length ↔
+      pre.sum / (pre ++ x :: post).sum ≤ u ∧ u < (pre.sum + x) / (pre ++ x :: post).sum :=
+  weightedIndex_law pre x post u hw hS hu0 hu1
+
+/-- the length of that interval is the normalised weight -/
+theorem weighted_pick_interval_length (pre : List ℝ) (x : ℝ) (post : List ℝ) :
+    (pre.sum + x) / (pre ++ x :: post).sum - pre.sum / (pre ++ x :: post).sum = x / (pre ++ x :: post).sum := by
+  rw [← sub_div]; congr 1; ring
+
+/-- `weighted_pick_support`: under the same hypotheses a picked position has positive weight -/
+theorem weighted_pick_support (pre : List ℝ) (x : ℝ) (post : List ℝ) (u : ℝ)
+    (hw : ∀ y ∈ pre ++ x :: post, 0 ≤ y) (hS : 0 < (pre ++ x :: post).sum) (hu0 : 0 ≤ u) (hu1 : u < 1)
+    (h : weightedIndex (pre ++ x :: post).length (pre ++ x :: post) u = .ok pre.length) : 0 < x := by
+  obtain ⟨h1, h2⟩ := (weighted_pick_law pre x post u hw hS hu0 hu1).mp h
+  have := lt_of_le_of_lt h1 h2
+  rw [div_lt_div_iff_of_pos_right hS] at this
+  linarith
+
+/-- … and for every draw whatsoever some position `< n` is picked (the default is the last one) -/
+theorem weighted_pick_total {α : Type} [Scalar α] (w : List α) (u : α) (hw : w ≠ []) :
+    ∃ pos, weightedIndex w.length w u = .ok pos ∧ pos < w.length :=
+  weightedIndex_ok (List.length_pos_iff.mpr hw) rfl u
+
+/-- `pickFromCumSum` on a cumulative vector `c = pre ++ x :: post`: the position of `x` is returned
+iff every earlier entry is `< u` and (`x` is the last entry or `u ≤ x`).  For a non-decreasing `c`
+this is the interval `(c_{i-1}, c_i]` (closed at 0 for `i = 0`, open-ended for the last index), of
+length `c_i - c_{i-1}` within `[0,1)` when the last entry is 1. -/
+theorem cumsum_pick_law (pre : List ℝ) (x : ℝ) (post : List ℝ) (u : ℝ) :
+    pickFromCumSum (pre ++ x :: post) u = .ok pre.length ↔ (∀ y ∈ pre, y < u) ∧ (post = [] ∨ u ≤ x) :=
+  pickFromCumSum_decomp pre x post u
+
+/-- for a non-decreasing cumulative vector "every earlier entry" is "the previous entry" -/
+theorem cumsum_pick_law_sorted (pre : List ℝ) (a x : ℝ) (post : List ℝ) (u : ℝ)
+    (hs : (pre ++ [a]).Pairwise (· ≤ ·)) :
+    pickFromCumSum ((pre ++ [a]) ++ x :: post) u = .ok (pre.length + 1) ↔ a < u ∧ (post = [] ∨ u ≤ x) := by
+  have := cumsum_pick_law (pre ++ [a]) x post u
+  simp only [List.length_append, List.length_singleton] at this
+  rw [this]
+  constructor
+  · rintro ⟨h1, h2⟩; exact ⟨h1 a (by simp), h2⟩
+  · rintro ⟨h1, h2⟩
+    refine ⟨?_, h2⟩
+    intro y hy
+    rcases List.mem_append.mp hy with hy | hy
+    · have := (List.pairwise_append.mp hs).2.2 y hy a (by simp)
+      linarith
+    · simp at hy; subst hy; exact h1
+
+/-- support of `pickFromCumSum`: a returned position that is not the last one carries a positive
+step of the cumulative function, unless `u = 0` hit a leading zero (an event of probability
+`2^-64` for `std::uniform_real_distribution`; witness below) -/
+theorem cumsum_pick_support (pre : List ℝ) (a x : ℝ) (post : List ℝ) (u : ℝ) (hpost : post ≠ [])
+    (hs : (pre ++ [a]).Pairwise (· ≤ ·))
+    (h : pickFromCumSum ((pre ++ [a]) ++ x :: post) u = .ok (pre.length + 1)) : a < x := by
+  obtain ⟨h1, h2⟩ := (cumsum_pick_law_sorted pre a x post u hs).mp h
+  rcases h2 with h2 | h2
+  · exact absurd h2 hpost
+  · linarith
+
+theorem cumsum_pick_support_u0_witness : pickFromCumSum ([0, 1] : List ℝ) 0 = .ok 0 := by
+  have := (cumsum_pick_law [] 0 [1] 0).mpr ⟨by simp, Or.inr (le_refl _)⟩
+  simpa using this
+
+/-! ## multinomial draws by inverse cdf -/
+
+/-- `multinomial_counts_sum`: for ALL draws, `randMultinomial(n, probs)` returns `n` states in
+`0..probs.size()` (the last value being the code's "not found" state) — each the inverse-cdf image
+of its own draw — and the counts of the states add up to `n` -/
+theorem multinomial_counts_sum {α : Type} [Scalar α] (probs : List α) (n : Nat) (draws : List α) (hd : n ≤ draws.length) :
+    ∃ states, randMultinomial probs n draws = .ok states ∧ states.length = n ∧
+      states = (draws.take n).map (multinomialState probs) ∧
+      (∀ s ∈ states, s ≤ probs.length) ∧ (counts probs.length states).sum = n ∧
+      countsOk probs.length n states = true := by
+  have hle : ∀ s ∈ (draws.take n).map (multinomialState probs), s ≤ probs.length := by
+    intro s hs; obtain ⟨r, _, rfl⟩ := List.mem_map.mp hs; exact multinomialState_le probs r
+  have hlen : ((draws.take n).map (multinomialState probs)).length = n := by simp [hd]
+  have hsum := counts_sum probs.length _ hle
+  rw [hlen] at hsum
+  refine ⟨_, randMultinomial_eq probs n draws hd, hlen, rfl, hle, hsum, ?_⟩
+  simp only [countsOk, Bool.and_eq_true, List.all_eq_true, decide_eq_true_eq, beq_iff_eq]
+  exact ⟨hle, hsum⟩
+
+/-- the law of one state given its uniform draw `r` (non-negative `probs = pre ++ x :: post` with
+positive sum `S`): state `pre.length` iff `Σpre / S < r ≤ (Σpre + x) / S` (closed at 0 for the first
+state): an interval of length `x / S` -/
+theorem multinomial_state_law (pre : List ℝ) (x : ℝ) (post : List ℝ) (r : ℝ)
+    (hw : ∀ y ∈ pre ++ x :: post, 0 ≤ y) (hS : 0 < (pre ++ x :: post).sum) :
+    multinomialState (pre ++ x :: post) r = pre.length ↔
+      (pre = [] ∨ pre.sum / (pre ++ x :: post).sum < r) ∧ r ≤ (pre.sum + x) / (pre ++ x :: post).sum :=
+  multinomialState_decomp pre x post r hw hS
+
+/-- with a draw `r ≤ 1` the "not found" state never occurs (exact arithmetic) -/
+theorem multinomial_state_range (probs : List ℝ) (r : ℝ) (hw : ∀ y ∈ probs, 0 ≤ y) (hS : 0 < probs.sum) (hr : r ≤ 1) :
+    multinomialState probs r < probs.length := multinomialState_lt probs r hw hS hr
+
+/-! ## the discrete draw of a distribution (`AbstractDiscreteDistribution::rand`) -/
+
+/-- with `dist = pre ++ (c, p) :: post` (categories in ascending order, non-negative probabilities)
+the category `c` is returned whenever `Σpre < r ≤ Σpre + p` (closed at 0 for the first category) -/
+theorem drand_law (pre : List (ℝ × ℝ)) (c p : ℝ) (post : List (ℝ × ℝ)) (r : ℝ)
+    (hpre : ∀ y ∈ pre, 0 ≤ y.2) (hlo : pre = [] ∨ (pre.map (·.2)).sum < r) (hhi : r ≤ (pre.map (·.2)).sum + p) :
+    dRand (pre ++ (c, p) :: post) r = c := by
+  unfold dRand
+  apply dRandFrom_decomp r c p post pre _ hpre
+  · simpa using hlo
+  · simpa using hhi
+
+/-- the "can't be reached" `return -1.` is not reached when the draw is at most the total mass:
+the result is one of the categories -/
+theorem drand_member (dist : List (ℝ × ℝ)) (r : ℝ) (hne : dist ≠ []) (hr : r ≤ (dist.map (·.2)).sum) :
+    dRand dist r ∈ dist.map (·.1) := by
+  unfold dRand
+  apply dRandFrom_mem r dist _ hne
+  simpa using hr
+
+/-! ## the permutation p-value of `ContingencyTableTest` -/
+
+/-- `pvalue_range`: whatever the simulated statistics, `(count+1)/(nbPermutations+1)` lies in `(0, 1]` -/
+theorem pvalue_range (stat : ℝ) (sims : List ℝ) :
+    0 < permPValue stat sims ∧ permPValue stat sims ≤ 1 := by
+  unfold permPValue
+  exact pvalueOfCount_range _ _ (countGe_le stat sims)
+
+/-- the relational form used on executions: any `count ≤ nb` gives a value in `(0, 1]` -/
+theorem pvalue_range_of_count (count nb : Nat) (h : count ≤ nb) :
+    0 < (pvalueOfCount count nb : ℝ) ∧ (pvalueOfCount count nb : ℝ) ≤ 1 := pvalueOfCount_range count nb h
+
+/-! ## parameter conventions of the sampler wrappers (table regenerated from the sources) -/
+
+/-- `wrapper_conventions`: for every sampler wrapper found in RandomTools.h / RandomTools.cpp, the law
+of the standard-library family with the arguments the wrapper passes to it is the law the
+library's own cumulative functions mean by the wrapper's parameter names (a mean is the mean, a
+rate the rate, a variance the variance), for all positive parameter values.  Canonical
+parametrisation: normal (mean, variance); exponential (rate); gamma (shape, rate). -/
+theorem wrapper_conventions : ∀ w ∈ Generated.wrappers,
+    ∃ a b, stdLawS w.family w.args = some a ∧ libLawS w.name = some b ∧
+      ∀ ρ : String → ℝ, (∀ n, 0 < ρ n) → a.eval ρ = b.eval ρ := by
+  intro w hw
+  exact wrapperOk_sound (List.all_eq_true.mp wrappers_all_ok w hw)
+
+/-- the same for each distribution class' `randC()`: the law of the wrapper it calls, with the
+arguments it passes, is the law of the class' own `pProb` -/
+theorem randC_conventions : ∀ r ∈ Generated.randCs,
+    ∃ a b, randCLawS Generated.wrappers r = some a ∧ distLawS r.dist = some b ∧
+      ∀ ρ : String → ℝ, (∀ n, 0 < ρ n) → a.eval ρ = b.eval ρ := by
+  intro r hr
+  exact randCOk_sound (List.all_eq_true.mp randCs_all_ok r hr)
+
+/-- every drawing wrapper the hand-written table knows is present in the regenerated table -/
+theorem wrapper_table_complete :
+    ["giveRandomNumberBetweenZeroAndEntry/1", "flipCoin/1", "randGaussian/2", "randGamma/1", "randGamma/2",
+      "randBeta/2", "randExponential/1"].all (fun n => Generated.wrappers.any (fun w => w.name == n)) = true ∧
+    ["Beta", "Exponential", "Gamma", "Gaussian", "TruncatedExponential"].all
+      (fun d => Generated.randCs.any (fun r => r.dist == d)) = true := by decide
+
+/-- the unrepaired sources (before `fix:` 54d504f, 5746c3e, 985f4b7): `randExponential(mean)` passed
+the mean as the rate, `randGamma(alpha, beta)` the rate as the scale, and
+`GaussianDiscreteDistribution::randC` the standard deviation as the variance -/
+theorem wrapper_conventions_unrepaired_witness :
+    wrapperOk ⟨"randExponential/1", ["mean"], .exponential, [.var "mean"]⟩ = false ∧
+    wrapperOk ⟨"randGamma/2", ["alpha", "beta"], .gamma, [.var "alpha", .var "beta"]⟩ = false ∧
+    randCOk Generated.wrappers ⟨"Gaussian", "randGaussian/2", [.var "mu", .var "sigma"]⟩ = false := by decide
+
+/-- … and they really denote different laws: e.g. at `mean = 4` the rate was 4 instead of 1/4 -/
+theorem randExponential_unrepaired_differs :
+    (⟨.exponential, [.var "mean"]⟩ : LawS).eval (fun _ => 4) ≠ (⟨.exponential, [.div Expr.one (.var "mean")]⟩ : LawS).eval (fun _ => 4) := by
+  simp [LawS.eval, Expr.eval, Expr.one]
+  norm_num
 
 end Bpp.C18
